@@ -99,11 +99,22 @@ def run(ctx):
     for i in range(ctx.budget(60, 1500)):
         legacy = rng.random() < 0.3
         props = gen_mapping(rng, 0, legacy)
+        extra_props = {}
         if legacy:
             schema = {"mappings": {"type1": {"properties": props}}}
-            if rng.random() < 0.3:
+            if rng.random() < 0.45:
                 other = {"u" + k: v for k, v in gen_mapping(rng, 2, True).items()}
+                containers = [k for k, v in props.items() if "properties" in v]
+                if containers and rng.random() < 0.6:
+                    # two document types that share a container (same name, same kind) with other members: the fields
+                    # of both are mapped (seeded C19-G: the types merged with a shallow dict.update)
+                    k = rng.choice(containers)
+                    twin = {kk: vv for kk, vv in props[k].items() if kk != "properties"}
+                    twin["properties"] = {"v" + kk: vv for kk, vv in gen_mapping(rng, 2, True).items()}
+                    other[k] = twin
+                    ctx.count("document types sharing a container")
                 schema["mappings"]["type2"] = {"properties": other}
+                extra_props = other
         else:
             schema = {"mappings": {"properties": props}}
         if rng.random() < 0.3:
@@ -131,7 +142,7 @@ def run(ctx):
                      "nested_fields": opts["nested_fields"], "object_fields": sorted(opts["object_fields"]),
                      "sub_fields": subs}
         ctx.count("legacy mapping" if legacy else "current mapping")
-        for path, is_text, nested, under in mapped_leaves(props):
+        for path, is_text, nested, under in list(mapped_leaves(props)) + list(mapped_leaves(extra_props)):
             for spelling, q in spellings(rng, path):
                 if spelling == "nested groups" and "multi-field" in under and False:
                     continue
